@@ -1,9 +1,94 @@
-(* C18 — property theorems only. *)
+(* C18 — property theorems only.  Each is closed by `exact <lemma>` and followed by Print Assumptions.
+   V: any value type; veq: the tracker's valuesEqual, assumed a decidable equivalence; keys are N.
+   `run V veq fixed ops` is the model's state after the operation list `ops` from the empty tracker
+   (fixed=false: the code as pinned; fixed=true: with fixes/C18-replace-iter-duplicate-key.patch);
+   `a_run V veq ops` are the two abstract maps (D, P) of Spec.v after the same operations.
+   Iteration order and callback answers are part of the operations (IterUpd/IterDel carry the visit
+   sequence), so they are universally quantified with `ops`.
+   `op_ok false o` asks only that a Replace's iterator produces no key twice (see the refuted theorem). *)
 From Coq Require Import List NArith ZArith Bool.
 From Verif.C18 Require Import Model Spec Proofs.
 Import ListNotations.
 Open Scope N_scope.
 
-Theorem c18_initial : forall V : Type, des_get V (st0 V) 0 = None.
-Proof. exact placeholder_initial. Qed.
-Print Assumptions c18_initial.
+(* After any operation sequence the four views equal the two abstract maps (up to valuesEqual) and
+   their exact difference. *)
+Theorem c18_views_exact : forall (V : Type) (veq : V -> V -> bool),
+  (forall a, veq a a = true) -> (forall a b, veq a b = veq b a) ->
+  (forall a b c, veq a b = true -> veq b c = true -> veq a c = true) ->
+  forall (fixed : bool) (ops : list (op V)), Forall (op_ok V fixed) ops ->
+  let s := run V veq fixed ops in
+  views_exact V veq (views_of V s) (fst (a_run V veq ops)) (snd (a_run V veq ops)).
+Proof. exact views_exact_run. Qed.
+Print Assumptions c18_views_exact.
+
+(* With valuesEqual = identity (the cachingmap case, ==) the equalities are literal. *)
+Theorem c18_views_identical : forall (V : Type) (veq : V -> V -> bool),
+  (forall a b, veq a b = true <-> a = b) ->
+  forall (fixed : bool) (ops : list (op V)), Forall (op_ok V fixed) ops ->
+  let s := run V veq fixed ops in
+  (forall k, des_get V s k = get (fst (a_run V veq ops)) k) /\
+  (forall k, dp_get V s k = get (snd (a_run V veq ops)) k) /\
+  (forall k, pu_get V s k = pending_update V veq (get (fst (a_run V veq ops))) (get (snd (a_run V veq ops))) k) /\
+  (forall k, pd_get V s k = pending_del V (get (fst (a_run V veq ops))) (get (snd (a_run V veq ops))) k).
+Proof. exact views_identical_run. Qed.
+Print Assumptions c18_views_identical.
+
+(* The Len() functions count the keys of the views (= of D and P); iterated views list each key once
+   and agree with Get; LenUpperBound is an upper bound. *)
+Theorem c18_lens_exact : forall (V : Type) (veq : V -> V -> bool),
+  (forall a, veq a a = true) -> (forall a b, veq a b = veq b a) ->
+  (forall a b c, veq a b = true -> veq b c = true -> veq a c = true) ->
+  forall (fixed : bool) (ops : list (op V)), Forall (op_ok V fixed) ops ->
+  let s := run V veq fixed ops in
+  (des_len V s = Z.of_nat (length (des_iter V s)) /\ NoDup (keys (des_iter V s)) /\ forall k, get (des_iter V s) k = des_get V s k) /\
+  (dp_len V s = Z.of_nat (length (dp_iter V s)) /\ NoDup (keys (dp_iter V s)) /\ forall k, get (dp_iter V s) k = dp_get V s k) /\
+  (pu_len V s = Z.of_nat (length (DU s)) /\ NoDup (keys (DU s))) /\
+  (pd_len V s = Z.of_nat (length (ND s)) /\ NoDup (keys (ND s))) /\
+  (des_len V s <= len_upper_bound V s)%Z /\
+  des_len V s = len (fst (a_run V veq ops)) /\ dp_len V s = len (snd (a_run V veq ops)).
+Proof. exact lens_run. Qed.
+Print Assumptions c18_lens_exact.
+
+(* The three internal maps stay disjoint the way the struct comment requires. *)
+Theorem c18_internal_maps_disjoint : forall (V : Type) (veq : V -> V -> bool),
+  (forall a, veq a a = true) -> (forall a b, veq a b = veq b a) ->
+  (forall a b c, veq a b = true -> veq b c = true -> veq a c = true) ->
+  forall (fixed : bool) (ops : list (op V)), Forall (op_ok V fixed) ops ->
+  let s := run V veq fixed ops in
+  forall k,
+    (get (AD s) k <> None -> get (ND s) k = None) /\
+    (get (DU s) k <> None -> get (ND s) k = None) /\
+    (forall a d, get (AD s) k = Some a -> get (DU s) k = Some d -> veq a d = false).
+Proof. exact internal_disjoint_run. Qed.
+Print Assumptions c18_internal_maps_disjoint.
+
+(* An IterActionUpdateDataplane answer moves exactly the visited key. *)
+Theorem c18_iter_update_moves : forall (V : Type) (veq : V -> V -> bool),
+  (forall a, veq a a = true) -> (forall a b, veq a b = veq b a) ->
+  (forall a b c, veq a b = true -> veq b c = true -> veq a c = true) ->
+  forall (s : st V) (k : N) (v : V), Inv V veq s -> pu_get V s k = Some v ->
+  let s' := pu_visit V s (k, AUpd) in
+  pu_get V s' k = None /\ dp_get V s' k = Some v /\ des_get V s' k = des_get V s k /\ des_get V s k = Some v /\
+  (forall k', k' <> k -> pu_get V s' k' = pu_get V s k' /\ dp_get V s' k' = dp_get V s k' /\
+                        des_get V s' k' = des_get V s k' /\ pd_get V s' k' = pd_get V s k') /\
+  pd_get V s' k = pd_get V s k /\ des_len V s' = des_len V s /\ Inv V veq s'.
+Proof. exact iter_update_moves. Qed.
+Print Assumptions c18_iter_update_moves.
+
+(* With the repair, no restriction on the iterators at all. *)
+Theorem c18_views_exact_repaired : forall (V : Type) (veq : V -> V -> bool),
+  (forall a, veq a a = true) -> (forall a b, veq a b = veq b a) ->
+  (forall a b c, veq a b = true -> veq b c = true -> veq a c = true) ->
+  forall ops : list (op V),
+  views_exact V veq (views_of V (run V veq true ops)) (fst (a_run V veq ops)) (snd (a_run V veq ops)).
+Proof. exact views_exact_repaired. Qed.
+Print Assumptions c18_views_exact_repaired.
+
+(* The pinned ReplaceAllIter does NOT satisfy the property when the iterator yields a key twice
+   (witness replayed on the real code: known-findings.txt, key replace-iter-duplicate-key). *)
+Theorem c18_replace_duplicate_key_refuted :
+  exists ops : list (op N),
+    ~ views_exact N N.eqb (views_of N (run N N.eqb false ops)) (fst (a_run N N.eqb ops)) (snd (a_run N N.eqb ops)).
+Proof. exact replace_duplicate_key_refuted. Qed.
+Print Assumptions c18_replace_duplicate_key_refuted.
